@@ -317,7 +317,11 @@ _uni_plain = st.text(max_size=24)
 _uni = st.one_of(st.text(max_size=24), st.text(max_size=24),
                  # any Python string, including lone surrogates (what a surrogateescape-decoded command line argument holds)
                  st.text(alphabet=st.characters(exclude_categories=()), max_size=12))
-_ascii_txt = st.text(alphabet="abcdefghijklmnopqrstuvwxyzABCDEFGHIJKLMNOPQRSTUVWXYZ0123456789 ._-+/=:@!\"'\\{}[],", max_size=24)
+_ascii_txt = st.one_of(
+    st.text(alphabet="abcdefghijklmnopqrstuvwxyzABCDEFGHIJKLMNOPQRSTUVWXYZ0123456789 ._-+/=:@!\"'\\{}[],", max_size=24),
+    st.text(alphabet="abcdefghijklmnopqrstuvwxyzABCDEFGHIJKLMNOPQRSTUVWXYZ0123456789 ._-+/=:@!\"'\\{}[],", max_size=24),
+    # a long value now and then: the serialised file grows past 1 KiB / 4 KiB (format detection and writing work on the whole file)
+    st.builds(lambda unit, n: (unit * n)[:n], st.sampled_from(["push name ", "x", "Zo\u00eb \u263a ", "a=b;c#d "]), st.sampled_from([300, 1100, 5000])))
 _digits = st.text(alphabet="0123456789", min_size=1, max_size=15)
 
 
